@@ -86,7 +86,7 @@ def build(cfg, N, mir_path=None, line=None):
             raise Unsupported("iterator adapter on %r" % (it,))
         ln = sl.e - sl.s
         n8 = z3.Extract(T.W - 1, 0, n)
-        big = z3.UGT(n, 255) if n.size() > T.W else z3.BoolVal(False)
+        big = z3.UGT(n, (1 << T.W) - 1) if n.size() > T.W else z3.BoolVal(False)
         if callee.endswith("::take"):
             return ok1(st, Opaque("iter", T.SliceV(sl.line, sl.s, z3.If(z3.Or(big, z3.UGE(n8, ln)), sl.e, sl.s + n8))))
         return ok1(st, Opaque("iter", T.SliceV(sl.line, z3.If(z3.Or(big, z3.UGE(n8, ln)), sl.e, sl.s + n8), sl.e)))
@@ -427,7 +427,9 @@ def ask(cx, name, bad, meaning, judge, extra_for_replay=None, timeout_s=None, wi
     return True
 
 
-def run_queries(cx, timeout_s=600):
+def run_queries(cx, timeout_s=600, hunt=False):
+    """hunt=True: bug hunting only - a query the solver does not decide within the budget is recorded as such but makes nothing
+    inconclusive (no claim is made from it); a satisfiable one is replayed and reported like any other"""
     from ms import solve_many
     res, rel, ref = cx.res, cx.rel, cx.ref
     qs, cx.queue = cx.queue, []
@@ -435,13 +437,16 @@ def run_queries(cx, timeout_s=600):
     ok = True
     for q, (s, r, dt, note) in zip(qs, results):
         name = q["name"]
-        it = _record(res, "%s[%s,N=%d]" % (name, rel.cfg, rel.N), r, dt, q["meaning"])
+        it = _record(res, "%s[%s,N=%d%s]" % (name, rel.cfg, rel.N, "+run<=%d" % rel.line.gmax if hasattr(rel.line, "expand") else ""), r, dt, q["meaning"])
         it["solver"] = note
         if r == "unsat":
             continue
         ok = False
         if r != "sat":
-            res.inconclusive.append("%s[%s]: %s" % (name, rel.cfg, r))
+            if hunt:
+                it["note"] = "bug hunting only: undecided within %d s, nothing is claimed from this query" % timeout_s
+            else:
+                res.inconclusive.append("%s[%s]: %s" % (name, rel.cfg, r))
             continue
         m = s.model()
         if q["extra"] is not None:
